@@ -1787,6 +1787,9 @@ def PaddedString(length, encoding):
     """
     macro = StringEncoded(FixedSized(length, NullStripped(GreedyBytes, pad=encodingunit(encoding))), encoding)
     def _emitfulltype(ksy, bitwise):
+        if len(encodingunit(encoding)) > 1:
+            # strz ends at the first zero BYTE; text in 2- or 4-byte code units has such bytes inside its characters
+            raise NotImplementedError
         return dict(size=length, type="strz", encoding=encoding)
     macro._emitfulltype = _emitfulltype
     return macro
@@ -1846,6 +1849,8 @@ def CString(encoding):
     """
     macro = StringEncoded(NullTerminated(GreedyBytes, term=encodingunit(encoding)), encoding)
     def _emitfulltype(ksy, bitwise):
+        if len(encodingunit(encoding)) > 1:
+            raise NotImplementedError
         return dict(type="strz", encoding=encoding)
     macro._emitfulltype = _emitfulltype
     return macro
